@@ -387,6 +387,7 @@ package raft
 
 //@ func Raft.sendRequestVote
 //@   requires votes != nil
+//@   requires [spawn-self-counted] *votes == 1
 //@   release s1 [truthful] request.CandidateID == r.id && request.LastLogIndex == Llast && request.LastLogTerm == Lterm[Llast] && request.Prevote == prevote && (prevote ==> request.Term == r.currentTerm + 1) && (!prevote ==> request.Term == r.currentTerm)
 //@   release s1 [voter] r.configuration.IsVoter[id] && r.configuration.IsVoter[r.id]
 //@   at before-assign *votes assert [count] response.VoteGranted && err == nil && r.currentTerm <= request.Term && request.Prevote == prevote
@@ -458,6 +459,7 @@ package raft
 
 //@ func Raft.sendAppendEntries
 //@   flags splitexits
+//@   requires [spawn-self-counted] numResponses != nil ==> *numResponses == 1
 //@   release s1 [leader-id] r.state == Leader && request.Term == r.currentTerm && request.LeaderID == r.id
 //@   release s1 [wf] WF(request) && request.LeaderCommit == r.commitIndex && r.lastIncludedIndex <= request.PrevLogIndex
 //@   release s1 [entries-verbatim] forall j int :: 0 <= j && j < len(request.Entries) ==> request.Entries[j].Term == Lterm[request.PrevLogIndex+1+j] && request.Entries[j].EntryType == Ltyp[request.PrevLogIndex+1+j] && request.Entries[j].Data == Ldata[request.PrevLogIndex+1+j]
